@@ -231,6 +231,68 @@ R("eq-c20-plane-refactored", U, "    rs = rho / (t_mm / 1e3)\n    return (rs * l
 
 
 # ----------------------------------------------------------------------------------------------- diffs
+# ----------------------------------------------------------------------------------------------- round-2 rules: equivalents and witnesses
+R("eq-row-domain-parent-alias", S, '''                pdom = "none"
+                if self._parents[n] != -1:
+                    pdom = ndom[self._parents[n][0]]''', '''                pdom = "none"
+                pp = self._parents[n]
+                if pp != -1:
+                    pdom = ndom[pp[0]]''', silent=["C01", "C05", "C06", "C07", "C16"], note="parent slot read through a local alias of the parent list")
+R("c07-row-domain-from-previous-node", S, '''                    pdom = ndom[self._parents[n][0]]''', '''                    pdom = ndom[n - 1]''', fires=["C07", "C16", "C06"])
+R("c01-back-prop-reset-hoisted", S, '''        for n in self._topo_nodes[::-1]:
+            p = self._parents[n]
+            phase_config = self._phase_lkup[n]
+            vi, vo, io, pstate = [0.0], 0.0, 0.0, {}''', '''        vi, vo, io, pstate = [0.0], 0.0, 0.0, {}
+        for n in self._topo_nodes[::-1]:
+            p = self._parents[n]
+            phase_config = self._phase_lkup[n]''', fires=["C01"])
+R("eq-back-prop-reset-split", S, '''            vi, vo, io, pstate = [0.0], 0.0, 0.0, {}
+            if p == -1:  # root
+                vi = [v[n]]''', '''            vi, vo = [0.0], 0.0
+            io, pstate = 0.0, {}
+            if p == -1:  # root
+                vi = [v[n]]''', silent=["C01", "C04", "C06"])
+R("eq-rectifier-vdrop-not-equal-zero", C, '''        if vdrop != 0.0:
+            self._params["type"] = "diode"''', '''        if not (vdrop == 0.0):
+            self._params["type"] = "diode"''', silent=["C11", "C12", "C13", "C10"])
+R("c11-rectifier-vdrop-truthiness", C, '''        if vdrop != 0.0:
+            self._params["type"] = "diode"''', '''        if vdrop:
+            self._params["type"] = "diode"''', fires=["C11"])
+R("c15-warn-after-add-child", S, '''        # loads have no output rail (warn before anything is modified)
+        if comp._component_type == _ComponentTypes.LOAD and rail != "":
+            warn(
+                "rail parameter ignored, not applicable on loads",
+                stacklevel=2,
+            )
+            rail = ""
+        # all ok, add component
+        cidx = self._g.add_child(pidx[0], comp, None)''', '''        # all ok, add component
+        cidx = self._g.add_child(pidx[0], comp, None)
+        if comp._component_type == _ComponentTypes.LOAD and rail != "":
+            warn(
+                "rail parameter ignored, not applicable on loads",
+                stacklevel=2,
+            )
+            rail = ""''', fires=["C15"])
+R("c09-check-limits-sorts", C, '''    return limits
+
+
+''', '''    for key in limits:
+        limits[key] = sorted(limits[key])
+    return limits
+
+
+''', fires=["C09", "C17"])
+R("c12-linreg-stores-ig-not-igc", C, '''        self._params["ig"] = igc''', '''        self._params["ig"] = ig''', fires=["C12"])
+R("c06-phase-lookup-rebuilt-conditionally", S, '''        v, i, state = self._sys_vars()
+        self._set_phase_lkup()''', '''        v, i, state = self._sys_vars()
+        if len(self._phase_lkup) != len(self._g.attrs["phase_conf"]):
+            self._set_phase_lkup()''', fires=["C06"])
+R("c16-phases-domain-from-last-source", S, '''            else:
+                # domain of the (first) parent, independent of the node order
+                dname = ndom[self._parents[n][0]]
+            ndom[n] = dname''', '''            ndom[n] = dname''', fires=["C16"], note="needs dname initialised: the variant is what the code did before the repair, minus the initialisation")
+
 FIX_REVERT_FIRES = {
     "F1": ["C03", "C01", "C02"], "F2": ["C11"], "F3": ["C12"], "F4": ["C17"], "F5": ["C15"], "F6": ["C14"],
     "F7": ["C16"], "F8": ["C07", "C16"], "F9": ["C05", "C08", "C01"], "F10": ["C08"], "F11": ["C02"],
